@@ -259,8 +259,10 @@ func featuresOf(c *core.Case) *features {
 						oConflict = append(oConflict, origin{pos: i, reg: in.Rd, hasReg: true})
 					}
 					if !a.store {
-						// the older load may see the younger store
-						oConflict = append(oConflict, origin{pos: i, reg: a.rd, hasReg: true})
+						// the older load may see the younger store: its result is
+						// wrong from the load on (also in what was computed from it
+						// before the store)
+						oConflict = append(oConflict, origin{pos: a.pos, reg: a.rd, hasReg: true})
 					}
 				}
 			}
